@@ -702,7 +702,7 @@ def success_conds(body, node, callee_rx):
     out = []
     for c in F.dominating_conds(body, node):
         if c.kind == 'disc':
-            good = (c.value == 0) or (isinstance(c.value, tuple) and c.value[0] == 'not' and '0' not in c.value[1])
+            good = c.variant_is(0)
             # for Option, Some is 1: `if let Some(x) = f()`
             e = c.expr
             m = e.mentions_call(rx)
@@ -711,7 +711,7 @@ def success_conds(body, node, callee_rx):
             is_option = m.c is not None and m.c.dest and body.local_ty(m.c.dest[0]).startswith('std::option::Option')
             through_try = e.mentions_call(r'Try>::branch$|Try::branch$') is not None
             if is_option and not through_try:
-                good = (c.value == 1) or (isinstance(c.value, tuple) and c.value[0] == 'not' and '1' not in c.value[1])
+                good = c.variant_is(1)
             if good:
                 out.append(c)
         elif c.kind == 'bool' and c.truth:
@@ -801,3 +801,8 @@ def mentions_next(e):
         if x.k == 'call' and x.c is not None and x.c.declared.endswith('iter::Iterator::next'):
             return x
     return None
+
+
+def calls_decl(body, *suffixes):
+    """call sites whose *declared* callee (trait method before resolution) ends with a suffix"""
+    return [c for c in body.calls() if any(c.declared.endswith(x) for x in suffixes)]
